@@ -81,6 +81,7 @@ type Exec struct {
 	Encoded   map[string]bool // functions whose bodies were executed (evidence)
 	sched     *scheduler
 	nextIsDeferred bool
+	hugeNext  bool
 	events    []Event
 	Extern    func(x *Exec, fr *frame, name string, fn *ssa.Function, args []Value) (Value, bool)
 }
